@@ -34,9 +34,9 @@ def enabled(w, b):
     lg = w.live("g")
     for a in range(nact):
         for p in prios:
-            if len(lp) < L:
+            if len(lp) < sp.get("live_p", L):
                 ops.append(("rp", a, p))
-            if len(lg) < L:
+            if len(lg) < sp.get("live_g", L):
                 for f in filters:
                     ops.append(("rg", a, p, f) if f is not None else ("rg", a, p))
     eager = sp.get("eager_get")
@@ -53,11 +53,13 @@ def enabled(w, b):
                 for d in sp.get("delays", [0]):
                     for c in sp.get("colors", ["red"]):
                         ops.append(("put", t.idx, d, c))
-            ops.append(("cp", t.idx))
+            if not sp.get("no_cancel"):
+                ops.append(("cp", t.idx))
         else:
             if t.status == GRANTED:
                 ops.append(("get", t.idx))
-            ops.append(("cg", t.idx))
+            if not sp.get("no_cancel"):
+                ops.append(("cg", t.idx))
     ops += w.enabled_time_ops()
     return ops
 
